@@ -230,6 +230,21 @@ pub fn parenthesise(p: &Program) -> Vec<Step> {
                     rule: "parenthesise",
                     program: with_root(p, mi, si, new),
                 });
+                // a term under line annotations, parenthesised together with its inline
+                // annotation (the line annotations stay outside)
+                if let E::Ann(lines, inner, Some(inline)) = e {
+                    if !lines.is_empty() {
+                        let split = E::Ann(
+                            lines.clone(),
+                            Box::new(E::Paren(Box::new(E::Ann(vec![], inner.clone(), Some(inline.clone()))))),
+                            None,
+                        );
+                        out.push(Step {
+                            rule: "parenthesise",
+                            program: with_root(p, mi, si, replace(root, &path, &split)),
+                        });
+                    }
+                }
             }
         }
     }
@@ -254,6 +269,18 @@ pub fn name_subexpr(p: &Program) -> Vec<Step> {
                     rule: "name a closed sub-expression",
                     program: q,
                 });
+                // the same for a term with its inline annotation under line annotations
+                if let E::Ann(lines, inner, Some(inline)) = e {
+                    if !lines.is_empty() {
+                        let split = E::Ann(lines.clone(), Box::new(var(&name)), None);
+                        let mut q = with_root(p, mi, si, replace(root, &path, &split));
+                        q.modules[mi].stmts.push(let_(&name, E::Ann(vec![], inner.clone(), Some(inline.clone()))));
+                        out.push(Step {
+                            rule: "name a closed sub-expression",
+                            program: q,
+                        });
+                    }
+                }
             }
         }
     }
@@ -465,7 +492,11 @@ pub fn alpha_rename(p: &Program) -> Vec<Step> {
     if reso.unspecified.is_some() || reso.unbound || reso.duplicates {
         return vec![];
     }
-    let new = fresh(p, "zr");
+    // a name that uses the whole identifier alphabet: inner and final dashes, `$`, a digit
+    let new = {
+        let names = all_names(p);
+        (0..).map(|i| format!("z-r${i}-")).find(|n| !names.contains(n)).unwrap()
+    };
     let mut out = Vec::new();
     for (bi, b) in printed.occs.iter().enumerate() {
         match b.kind {
